@@ -705,6 +705,173 @@ pub fn run(ctx: &mut Ctx, args: &[String]) {
     if ctx.shard == 0 {
         check_out_of_range(ctx);
     }
+    // (E) Rust shapes other than the plain struct: narrow integers, f32, char, newtype / tuple /
+    // unit structs, tuples, unit enum variants, maps with integer keys
+    let n = ctx.scale(4_000u64, 60_000u64);
+    let rng = ctx.rng("c12-shapes");
+    for i in 0..n {
+        if !ctx.mine_idx(i) {
+            continue;
+        }
+        let mut r = rng.fork(i);
+        check_shapes(ctx, &mut r);
+    }
+}
+
+#[derive(Serialize, Deserialize, Debug, PartialEq, Clone)]
+struct Meters(i32);
+#[derive(Serialize, Deserialize, Debug, PartialEq, Clone)]
+struct Pair(i16, String);
+#[derive(Serialize, Deserialize, Debug, PartialEq, Clone)]
+struct Marker;
+#[derive(Serialize, Deserialize, Debug, PartialEq, Clone, Copy)]
+enum Colour {
+    Red,
+    DarkGreen,
+}
+#[derive(Serialize, Deserialize, Debug, PartialEq, Clone)]
+struct Shapes {
+    a: i8,
+    b: i16,
+    c: i32,
+    d: u8,
+    e: u16,
+    f: u32,
+    g: f32,
+    h: char,
+    i: Meters,
+    j: Pair,
+    k: Marker,
+    l: (u8, String, bool),
+    o: Option<u16>,
+    p: Vec<(i8, char)>,
+    q: [u8; 3],
+}
+
+fn check_shapes(ctx: &mut Ctx, r: &mut Rng) {
+    let chars = ['a', 'Z', '0', ' ', 'é', '👍', '\n', '"'];
+    let x = Shapes {
+        a: r.choose(&[i8::MIN, -1, 0, 1, i8::MAX]),
+        b: r.choose(&[i16::MIN, -300, 0, 300, i16::MAX]),
+        c: r.choose(&[i32::MIN, -70000, 0, 70000, i32::MAX]),
+        d: r.choose(&[0, 1, 200, u8::MAX]),
+        e: r.choose(&[0, 1, 40000, u16::MAX]),
+        f: r.choose(&[0, 1, 3_000_000_000, u32::MAX]),
+        g: r.choose(&[0.0f32, -0.5, 1.25, 1024.0, -3.0e10]),
+        h: r.choose(&chars),
+        i: Meters(r.range(-5, 5) as i32),
+        j: Pair(r.range(-9, 9) as i16, r.choose(&["", "x", "é y"]).to_string()),
+        k: Marker,
+        l: (r.below(256) as u8, r.choose(&["t", ""]).to_string(), r.chance(1, 2)),
+        o: if r.chance(1, 3) { None } else { Some(r.below(65536) as u16) },
+        p: (0..r.below(3)).map(|_| (r.range(-128, 127) as i8, r.choose(&chars))).collect(),
+        q: [r.below(256) as u8, 0, 255],
+    };
+    let shown = format!("{x:?}");
+    let replay = || json!({"kind": "shapes", "value": shown});
+    ctx.record(hash_str(&shown), true);
+    ctx.count("shapes:instances");
+    let v = match guard(|| to_value(&x)) {
+        Ok(Ok(v)) => v,
+        Ok(Err(e)) => {
+            ctx.violation("serde:shapes-rejected", &format!("to_value({shown}) failed: {e}"), replay);
+            return;
+        }
+        Err(p) => {
+            ctx.violation(&p.key(), &format!("to_value({shown}) panicked: {}", p.msg), replay);
+            return;
+        }
+    };
+    // what the liquid value must look like
+    let int = |n: i64| RVal::Int(n);
+    let st = |t: &str| RVal::Str(t.to_string());
+    let want = RVal::Object(vec![
+        ("a".into(), int(x.a as i64)),
+        ("b".into(), int(x.b as i64)),
+        ("c".into(), int(x.c as i64)),
+        ("d".into(), int(x.d as i64)),
+        ("e".into(), int(x.e as i64)),
+        ("f".into(), int(x.f as i64)),
+        ("g".into(), RVal::Float(x.g as f64)),
+        ("h".into(), st(&x.h.to_string())),
+        ("i".into(), int(x.i.0 as i64)),
+        ("j".into(), RVal::Array(vec![int(x.j.0 as i64), st(&x.j.1)])),
+        ("k".into(), RVal::Nil),
+        ("l".into(), RVal::Array(vec![int(x.l.0 as i64), st(&x.l.1), RVal::Bool(x.l.2)])),
+        ("o".into(), x.o.map_or(RVal::Nil, |n| int(n as i64))),
+        ("p".into(), RVal::Array(x.p.iter().map(|(n, c)| RVal::Array(vec![int(*n as i64), st(&c.to_string())])).collect())),
+        ("q".into(), RVal::Array(x.q.iter().map(|b| int(*b as i64)).collect())),
+    ]);
+    let got = dump_view(&v);
+    if got != want.dump() {
+        ctx.violation("serde:shapes-converted-wrongly", &format!("to_value({shown}) = {got}, expected {}", want.dump()), replay);
+        return;
+    }
+    // and back
+    match guard(|| from_value::<Shapes>(&v)) {
+        Ok(Ok(y)) => {
+            if y != x {
+                ctx.violation("serde:shapes-roundtrip-changes-value", &format!("{shown} came back as {y:?}"), replay);
+            } else {
+                ctx.count("shapes:roundtrip-exact");
+            }
+        }
+        Ok(Err(e)) => ctx.violation("serde:shapes-roundtrip-rejected", &format!("from_value(to_value({shown})) failed: {e}"), replay),
+        Err(p) => ctx.violation(&p.key(), &format!("from_value of {shown} panicked: {}", p.msg), replay),
+    }
+    // a unit enum variant becomes its name; reading enums back is not supported by the bridge (it
+    // says so with an error) -- if it ever answers, it must answer with the same variant
+    for c in [Colour::Red, Colour::DarkGreen] {
+        match guard(|| to_value(&c).ok().map(|v| (dump_view(&v), from_value::<Colour>(&v).ok()))) {
+            Ok(Some((d, back))) => {
+                let want = RVal::Str(format!("{c:?}")).dump();
+                if d != want {
+                    ctx.violation("serde:shapes-converted-wrongly", &format!("to_value({c:?}) = {d}, expected {want}"), replay);
+                }
+                match back {
+                    None => ctx.count("shapes:enum-read-back-rejected"),
+                    Some(y) if y == c => ctx.count("shapes:enum-read-back-exact"),
+                    Some(y) => ctx.violation("serde:shapes-roundtrip-changes-value", &format!("{c:?} came back as {y:?}"), replay),
+                }
+            }
+            Ok(None) => ctx.count("shapes:enum-rejected"),
+            Err(p) => ctx.violation(&p.key(), &format!("enum conversion panicked: {}", p.msg), replay),
+        }
+    }
+    // a map with integer keys becomes an object keyed by their decimal text; reading it back into
+    // integer keys is not supported (an error) -- if it answers, it answers with the same map
+    {
+        let m: BTreeMap<i32, String> = (0..r.below(3)).map(|k| (r.range(-3, 3) as i32 * 7 + k as i32, format!("v{k}"))).collect();
+        match guard(|| to_value(&m).ok().map(|v| (dump_view(&v), from_value::<BTreeMap<i32, String>>(&v).ok()))) {
+            Ok(Some((d, back))) => {
+                let want = RVal::Object(m.iter().map(|(k, v)| (k.to_string(), RVal::Str(v.clone()))).collect()).dump();
+                if d != want {
+                    ctx.violation("serde:shapes-converted-wrongly", &format!("to_value({m:?}) = {d}, expected {want}"), replay);
+                }
+                match back {
+                    None => ctx.count("shapes:integer-keyed-map-read-back-rejected"),
+                    Some(y) if y == m => ctx.count("shapes:integer-keyed-map-read-back-exact"),
+                    Some(y) => ctx.violation("serde:shapes-roundtrip-changes-value", &format!("{m:?} came back as {y:?}"), replay),
+                }
+            }
+            Ok(None) => ctx.count("shapes:integer-keyed-map-rejected"),
+            Err(p) => ctx.violation(&p.key(), &format!("map conversion panicked: {}", p.msg), replay),
+        }
+    }
+    // narrowing must reject, not wrap: a value out of the target's range
+    for (name, r) in [
+        ("i8 <- 200", guard(|| from_value::<i8>(&Value::scalar(200i64)).ok().map(|n| n as i64))),
+        ("u8 <- -1", guard(|| from_value::<u8>(&Value::scalar(-1i64)).ok().map(|n| n as i64))),
+        ("u16 <- 70000", guard(|| from_value::<u16>(&Value::scalar(70000i64)).ok().map(|n| n as i64))),
+        ("i32 <- 2^40", guard(|| from_value::<i32>(&Value::scalar(1i64 << 40)).ok().map(|n| n as i64))),
+        ("u32 <- -5", guard(|| from_value::<u32>(&Value::scalar(-5i64)).ok().map(|n| n as i64))),
+    ] {
+        match r {
+            Ok(None) => ctx.count("shapes:narrowing-rejected"),
+            Ok(Some(n)) => ctx.violation("serde:integer-roundtrip-changes-value", &format!("{name} gave {n}: a different integer"), replay),
+            Err(p) => ctx.violation(&p.key(), &format!("{name} panicked: {}", p.msg), replay),
+        }
+    }
 }
 
 pub fn replay(j: &serde_json::Value) -> bool {
@@ -717,6 +884,17 @@ pub fn replay(j: &serde_json::Value) -> bool {
             if let (Ok(rich), Ok(single)) = (serde_json::from_value::<Rich>(j["rich"].clone()), serde_json::from_value::<Single>(j["single"].clone())) {
                 check_struct(&mut ctx, &rich, &single, &ts);
             }
+        }
+        "shapes" => {
+            // the instance is identified by its seed stream: re-run the family of the recorded seed
+            let seed = j["seed"].as_u64().unwrap_or(1);
+            let mut c2 = Ctx::new("C12", crate::ctx::Tier::Quick, seed, 0, 1, None);
+            let rng = c2.rng("c12-shapes");
+            for i in 0..4_000u64 {
+                let mut r = rng.fork(i);
+                check_shapes(&mut c2, &mut r);
+            }
+            ctx.violations = std::mem::take(&mut c2.violations);
         }
         _ => check_out_of_range(&mut ctx),
     }
